@@ -221,4 +221,115 @@ def hdrOf (es : List Entry) (value : List Char) : Hdr :=
   | some b => .known b
   | none => .unknown
 
+
+/-! ### backend_storage_static.go: which configuration a backend's secret comes from
+
+`getConfiguredHosts(backendIds, config, commonSecret)` gives every configured section its secret: the section's own
+`secret`, else the common `[backend] secret` it was handed, and skips a section that then has none.  It is called at
+startup (`NewBackendStorageStatic`) and by `Reload`; where its arguments come from in each caller is read from the
+source (`startHostsArgs`, `reloadHostsArgs`).  The storage also keeps the common secret it saw at startup
+(`s.commonSecret`): a caller that does not take the common secret from the file it is loading is modelled as using
+that older value. -/
+
+def stmtSecretOwn : String := "secret, _ := GetStringOptionWithEnv(config, id, \"secret\")"
+def stmtSecretFallback : String :=
+  "if secret == \"\" && commonSecret != \"\" { log.Printf(\"Backend %s has no own shared secret set, using common shared secret\", id) secret = commonSecret }"
+def stmtSecretSkip : String :=
+  "if u == \"\" || secret == \"\" { log.Printf(\"Backend %s is missing or incomplete, skipping\", id) continue }"
+
+/-- The secret `getConfiguredHosts` stores for a section with own secret `own` (empty = option absent) when handed
+`common`; `none` = the section is skipped. -/
+def effectiveSecret (own common : Bytes) : Option Bytes :=
+  let s := if secretProgram.contains stmtSecretFallback then (if own.isEmpty && !common.isEmpty then common else own) else own
+  if secretProgram.contains stmtSecretSkip then (if s.isEmpty then none else some s) else some s
+
+/-- A configuration file as far as secrets go: the common secret and, per configured backend id, its own secret. -/
+structure SecretFile where
+  common : Bytes
+  backends : List Backend       -- `secret` = the section's own `secret` option (empty = absent)
+  deriving Repr
+
+def resolveSecrets (common : Bytes) (raw : List Backend) : List Backend :=
+  raw.filterMap fun r => (effectiveSecret r.secret common).map fun s => ⟨r.id, s⟩
+
+/-- Where the three arguments of `getConfiguredHosts` come from when all of them are read from the file being loaded. -/
+def hostsArgsFromLoadedFile : List String :=
+  ["backendIds, _ := config.GetString(\"backend\", \"backends\")", "param:config *goconf.ConfigFile",
+   "commonSecret, _ := GetStringOptionWithEnv(config, \"backend\", \"secret\")"]
+def hostsCallFromLoadedFile : String := "getConfiguredHosts(backendIds, config, commonSecret)"
+
+def startFromLoadedFile : Bool := startHostsCall == hostsCallFromLoadedFile && startHostsArgs == hostsArgsFromLoadedFile
+def reloadFromLoadedFile : Bool := reloadHostsCall == hostsCallFromLoadedFile && reloadHostsArgs == hostsArgsFromLoadedFile
+
+/-- The secrets held by the static storage: what it cached at startup and the configured backends. -/
+structure SecretState where
+  cachedCommon : Bytes := []
+  backends : List Backend := []
+  deriving Repr
+
+/-- `NewBackendStorageStatic` (new-style `backends` list). -/
+def startSecrets (f : SecretFile) : SecretState :=
+  ⟨f.common, resolveSecrets (if startFromLoadedFile then f.common else []) f.backends⟩
+
+/-- `backendStorageStatic.Reload`. -/
+def reloadSecrets (st : SecretState) (f : SecretFile) : SecretState :=
+  { st with backends := resolveSecrets (if reloadFromLoadedFile then f.common else st.cachedCommon) f.backends }
+
+/-! ### http_client_pool.go: redirects of a signed request
+
+`PerformJSONRequest` sends through an `http.Client` of the pool; its `CheckRedirect` (statements read from the source)
+refuses a redirect whose scheme or host (`URL.Host`: name and port) differs from those of the request before.  Go's
+client (trusted, not proved): 301/302/303 turn the POST into a GET without body, 307/308 repeat it with its body;
+in both cases the headers of the first request — among them random and checksum — are sent again
+(`net/http`'s `redirectBehavior`; observed by the harness on every redirect op). -/
+
+def stmtCheckRedirect : String :=
+  "if len(via) >= 10 { return errors.New(\"stopped after 10 redirects\") } else if len(via) > 0 { viaReq := via[len(via)-1] if req.URL.Scheme != viaReq.URL.Scheme || req.URL.Host != viaReq.URL.Host { return ErrNotRedirecting } }"
+
+/-- `URL.Scheme` of a plain URL. -/
+def schemeOf (u : List Char) : List Char := u.takeWhile (· != ':')
+/-- `URL.Host` of a plain URL `scheme://host/path`: what stands between `://` and the next slash (name and port). -/
+def hostOf (u : List Char) : List Char := ((u.dropWhile (· != ':')).drop 3).takeWhile (· != '/')
+
+/-- Every signed request goes through a pool client, every pool client has the recognised `CheckRedirect`. -/
+def clientGuarded : Bool :=
+  outgoingSentThroughPoolClient && poolClientLiterals == poolClientLiteralsWithCheckRedirect && outgoingOwnClients == 0 &&
+  checkRedirectProgram == [stmtCheckRedirect, "return nil"]
+
+/-- Does `CheckRedirect` let the client go from `prev` to `next`?  Without the recognised guard every redirect is followed. -/
+def redirectAllowed (prev next : List Char) : Bool :=
+  if clientGuarded then schemeOf next == schemeOf prev && hostOf next == hostOf prev else true
+
+/-- One answer of a server: status code and `Location`. -/
+structure Hop where
+  code : Nat
+  location : List Char
+  deriving Repr
+
+/-- A request on the wire: where it goes, whether it still is a POST, whether it carries the body of the first. -/
+structure Sent where
+  url : List Char
+  post : Bool
+  body : Bool
+  deriving DecidableEq, Repr
+
+def isRedirectCode (c : Nat) : Bool := c == 301 || c == 302 || c == 303 || c == 307 || c == 308
+/-- 307/308: same method, the body of the first request again (even if a 301/302/303 on the way made the method GET). -/
+def keepsBody (c : Nat) : Bool := c == 307 || c == 308
+
+/-- The requests sent after the one to `prev`, when the servers answer with `chain` (one answer per request, 200 after it). -/
+def follow (prev : List Char) (post : Bool) : List Hop → List Sent
+  | [] => []
+  | h :: rest =>
+    if !isRedirectCode h.code then []
+    else if !redirectAllowed prev h.location then []
+    else ⟨h.location, post && keepsBody h.code, keepsBody h.code⟩ :: follow h.location (post && keepsBody h.code) rest
+
+/-- All requests one `PerformJSONRequest(u, …)` puts on the wire: none without a backend for `u`, else the signed POST
+and whatever the redirects lead to; every one of them carries the headers of the first. -/
+def deliveries (target : Option Backend) (u : List Char) (chain : List Hop) : List Sent :=
+  match target with
+  | none => []
+  | some _ => ⟨u, true, true⟩ :: follow u true chain
+
 end SigModel.Checksum
